@@ -270,6 +270,22 @@ claim("C10",
       "and threshold=None not decided.",
       "TLA+ design models checked by TLC + TLC behaviour emission + TLC trace validation (T3 tables, differential check against GPy)", "5/C10")
 
+claim("C16",
+      "TLC checks ResultObjects.tla exhaustively (constructor, samples_array, rational means, weighted-quantile intervals via WQuantileOps, "
+      "BOLFI slice-and-reshape vs. chain-by-chain concatenation, and the Save/Load state machine over csv/json/pkl histories <= 3-4 with the "
+      "aliasing of the JSON save) and ChainDiag.tla exhaustively (split R-hat = BDA3 11.4 = cleared integer form; eff_sample_size "
+      "transcription = cleared big-natural form; invariance under shifts, integer scalings, chain reordering; shapes up to 1x7, 2x5, 3x4).  "
+      "Eight negative controls are refuted, incl. the JSON save as originally coded (F30, repaired).  Real Sample / SmcSample / BolfiSample "
+      "objects built from id-valued arrays with dyadic weights are taken through every save/read-back history <= 3-4 and seeded random "
+      "ones; real gelman_rubin_statistic / eff_sample_size calls on all small and seeded random integer chains (<= 4x16) and on exactly "
+      "transformed copies; ResultObjects_Trace / ChainDiag_Trace recompute the expected values from the logged inputs (ids, fixed point "
+      "1e-6, big-natural rationals 5e-8).",
+      "Small-scope; values are ids mapped through strictly increasing tables, means judged only on id*2^-sh tables; interval ends judged by "
+      "the quantile definition (both neighbours accepted on exact boundaries); reading back = python csv/json/pickle; scalar parameter "
+      "columns only; 'ESS = its documented estimator' is an M: clause (DRIFT only) per the scope decision of DESIGN 5/C16; affine maps "
+      "restricted to +-2^k x + c with integer c.",
+      "TLA+ design models checked by TLC + TLC trace validation of logged real calls", "5/C16")
+
 ALL = ["C%02d" % i for i in range(1, 21)]
 
 
